@@ -39,6 +39,10 @@ pub enum Grouping {
     UpTo(usize),
     /// alternate: group two, then one, ...
     Alternate,
+    /// answers "more" only the first time it is asked about a physical batch
+    /// in a given state (linger-time / pressure based stores change their
+    /// mind between two questions about the same batch)
+    FirstAskOnly,
 }
 
 #[derive(Default, Debug, Clone, PartialEq, Eq)]
@@ -150,6 +154,8 @@ pub struct Batch {
     ops: Vec<Op>,
     consumed: usize,
     db: MemKv,
+    /// `consumed` at the time of the last `should_write_more` question
+    asked_at: std::sync::atomic::AtomicUsize,
 }
 
 pub fn enc<T: Encode>(p: &Plugin, v: &T) -> Vec<u8> {
@@ -274,6 +280,13 @@ impl WriteBatch for Batch {
         match st.grouping {
             Grouping::Never => false,
             Grouping::UpTo(n) => self.consumed < n,
+            Grouping::FirstAskOnly => {
+                if self.consumed >= 2 {
+                    return false;
+                }
+                let prev = self.asked_at.swap(self.consumed, std::sync::atomic::Ordering::SeqCst);
+                prev != self.consumed
+            }
             Grouping::Alternate => {
                 if self.consumed >= 2 {
                     return false;
@@ -360,7 +373,7 @@ impl KvDatabase for MemKv {
     }
 
     fn write_batch(&self) -> Batch {
-        Batch { ops: vec![], consumed: 0, db: self.clone() }
+        Batch { ops: vec![], consumed: 0, db: self.clone(), asked_at: std::sync::atomic::AtomicUsize::new(usize::MAX) }
     }
 
     fn serialization_buffer(&self) -> Buf {
